@@ -43,38 +43,46 @@ FILE = 'loki/transformations/array_indexing/vector_notation.py'
 CLS = 'ResolveVectorNotationTransformer'
 
 
-def _taint(fn, seeds, through_dims):
-    """names (locals) derived from the seed expressions; `through_dims` selects whether derivation through `.dimensions`
-    (the subscripts) counts -- the overlap test needs the array symbol itself"""
-    names = set()
+def _aliases(fn, par):
+    """(L, Rcoll, Relem): direct aliases of the assigned array symbol, collections of the variables read on the right-hand
+    side, and loop variables ranging over such collections.  Alias propagation only (plain assignment, filter comprehension,
+    direct / zip iteration) -- values merely computed *from* them (new dimensions, positions ...) are not aliases."""
+    L, Rcoll, Relem = set(), set(), set()
 
-    def derived(e):
-        for n in ast.walk(e):
-            if isinstance(n, ast.Name) and n.id in names:
-                return True
-            if ast.unparse(n) in seeds:
-                return True
+    def is_l(e):
+        return ast.unparse(e) == f'{par}.lhs' or (isinstance(e, ast.Name) and e.id in L)
+
+    def is_rcoll(e):
+        if isinstance(e, ast.Name):
+            return e.id in Rcoll
+        if isinstance(e, ast.Call) and f'.visit({par}.rhs)' in ast.unparse(e):
+            return True
+        if isinstance(e, (ast.ListComp, ast.GeneratorExp)) and len(e.generators) == 1 and is_rcoll(e.generators[0].iter) \
+                and isinstance(e.elt, ast.Name) and isinstance(e.generators[0].target, ast.Name) and e.elt.id == e.generators[0].target.id:
+            return True
+        if isinstance(e, ast.Call) and X.call_name_of(e) in ('tuple', 'list', 'as_tuple', 'OrderedSet', 'set') and len(e.args) == 1:
+            return is_rcoll(e.args[0])
         return False
     changed = True
     while changed:
         changed = False
         for n in ast.walk(fn):
-            pairs = []
-            if isinstance(n, ast.Assign):
-                pairs = [(t, n.value) for t in n.targets]
+            if isinstance(n, ast.Assign) and len(n.targets) == 1 and isinstance(n.targets[0], ast.Name):
+                t = n.targets[0].id
+                if is_l(n.value) and t not in L:
+                    L.add(t); changed = True
+                if is_rcoll(n.value) and t not in Rcoll:
+                    Rcoll.add(t); changed = True
             elif isinstance(n, (ast.For, ast.comprehension)):
-                pairs = [(n.target, n.iter)]
-            elif isinstance(n, ast.NamedExpr):
-                pairs = [(n.target, n.value)]
-            for t, v in pairs:
-                if not through_dims and any(isinstance(a, ast.Attribute) and a.attr in ('dimensions', 'shape') for a in ast.walk(v)):
-                    continue
-                if derived(v):
-                    for x in ast.walk(t):
-                        if isinstance(x, ast.Name) and x.id not in names:
-                            names.add(x.id)
-                            changed = True
-    return names
+                it, tg = n.iter, n.target
+                if is_rcoll(it) and isinstance(tg, ast.Name) and tg.id not in Relem:
+                    Relem.add(tg.id); changed = True
+                if isinstance(it, ast.Call) and X.call_name_of(it) in ('zip', 'enumerate') and isinstance(tg, ast.Tuple):
+                    args = it.args if X.call_name_of(it) == 'zip' else [None] + list(it.args)
+                    for a, t_ in zip(args, tg.elts):
+                        if a is not None and is_rcoll(a) and isinstance(t_, ast.Name) and t_.id not in Relem:
+                            Relem.add(t_.id); changed = True
+    return L, Rcoll, Relem
 
 
 def run(ctx):
@@ -92,29 +100,18 @@ def run(ctx):
     fns = [f for f in reach.values() if f.module.relpath.startswith('loki/transformations/array_indexing')]
     ctx.floor('R1', 'functions of the resolver reachable from visit_Assignment', len(fns), 4)
     # ---- R1
-    lnames = _taint(va.node, {f'{par}.lhs'}, through_dims=False)
-    rnames = _taint(va.node, {f'{par}.rhs'}, through_dims=False)
+    L, Rcoll, Relem = _aliases(va.node, par)
+    lnames, rnames = L, Rcoll | Relem
     relating = []
+
+    def mentions(e, names, extra=None):
+        txt = ast.unparse(e)
+        return any(isinstance(x, ast.Name) and x.id in names for x in ast.walk(e)) or (extra is not None and extra in txt)
     for n in ast.walk(va.node):
         if isinstance(n, ast.Compare) and len(n.ops) == 1:
-            sides = [n.left, n.comparators[0]]
-
-            def kind(e):
-                txt = ast.unparse(e)
-                ks = set()
-                for x in ast.walk(e):
-                    if isinstance(x, ast.Name):
-                        if x.id in lnames:
-                            ks.add('L')
-                        if x.id in rnames:
-                            ks.add('R')
-                if f'{par}.lhs' in txt:
-                    ks.add('L')
-                if f'{par}.rhs' in txt:
-                    ks.add('R')
-                return ks
-            k0, k1 = kind(sides[0]), kind(sides[1])
-            if ('L' in k0 and 'R' in k1) or ('R' in k0 and 'L' in k1):
+            a, b = n.left, n.comparators[0]
+            if (mentions(a, L, f'{par}.lhs') and mentions(b, rnames, f'{par}.rhs')) or \
+                    (mentions(b, L, f'{par}.lhs') and mentions(a, rnames, f'{par}.rhs')):
                 relating.append(ast.unparse(n))
     facts = {'derived_from_lhs_symbol': sorted(lnames), 'derived_from_rhs_arrays': sorted(rnames), 'relating_comparisons': relating,
              'reachable_functions': sorted(f.qualname for f in fns)}
